@@ -104,6 +104,13 @@ EXTRA = {
    '//@ loop 1 invariant ncalls() == 2*(rangeindex#1 + 1) && rangeindex#1 < len(expr.Keys) && (forall k int :: 0 <= k && k <= rangeindex#1 ==> calleeIs(2*k, "invokeExpr") && arg(2*k) == expr.Keys[k] && calleeIs(2*k+1, "invokeExpr") && arg(2*k+1) == expr.Values[k]) && (forall k int :: 0 <= k && k < ncalls() ==> res(k) == nil)'],
  "anonCallExpr": [
    '//@ ensures [C07] order: ncalls() >= 1 && ncalls() <= 2 && calleeIs(0, "invokeExpr") && arg(0) == old(as(runInfo.expr, "*ast.AnonCallExpr")).Expr && (ncalls() == 2 ==> res(0) == nil && calleeIs(1, "invokeExpr") && typeis(arg(1), "*ast.CallExpr") && as(arg(1), "*ast.CallExpr").SubExprs == old(as(runInfo.expr, "*ast.AnonCallExpr")).SubExprs)'],
+ "convertReflectValueToType": ['//@ requires [C01] okvin: rvValid(rv) && rt != nil', '//@ ensures [C01] okv: rvValid(result.0)', '//@ ensures [C10 C11] keep: result.1 != nil ==> result.0 == rv'],
+ "convertSliceOrArray": ['//@ requires [C01] okvin: rvValid(rv) && rt != nil', '//@ ensures [C01] okv: rvValid(result.0)'],
+ "convertMap": ['//@ requires [C01] okvin: rvValid(rv) && rt != nil', '//@ ensures [C01] okv: rvValid(result.0)'],
+ "convertVMFunctionToType": ['//@ requires [C01] okvin: rvValid(rv) && rt != nil', '//@ ensures [C01] okv: rvValid(result.0)'],
+ "getMapIndex": ['//@ requires [C01] okvin: rvValid(key) && rvKind(aMap) == reflect.Map', '//@ ensures [C01] okv: rvValid(result)'],
+ "appendSlice": ['//@ ensures [C01] okv: rvValid(result.0)'],
+ "makeValue": ['//@ requires [C01] t != nil', '//@ ensures [C01] okv: rvValid(result.0)'],
  "equal": ['//@ ensures [C06] nil: (nilV(lhsV) || nilV(rhsV)) ==> result == (nilV(lhsV) && nilV(rhsV))',
            '//@ ensures [C06] core: !nilV(lhsV) && !nilV(rhsV) && corePair(eqD(lhsV), eqD(rhsV)) ==> result == eqV(lhsV, rhsV)'],
  "isNil": ['//@ ensures [C06] def: result == nilV(v)'],
@@ -140,7 +147,8 @@ for f in pure:
         ls += ["// VM-function protocol (ASSUMED for host functions with the VM signature, proved for funcExpr's closures): the error a",
                "// function value returns is never a control-flow sentinel, and it is non-nil when a cancellation poll fired inside it",
                "//@ free_ensures [C08] nosentinel: notSentinel(result.1)",
-               "//@ free_ensures [C02] firederr: callFired(rvs) ==> realErr(result.1)"]
+               "//@ free_ensures [C02] firederr: callFired(rvs) ==> realErr(result.1)",
+               "//@ free_ensures [C01] okv: rvValid(result.0)"]
     if f == "reflectValueSlicetoInterfaceSlice":
         ls.append("//@ loop 0 invariant interfaceSlice == nil || fresh(base(interfaceSlice))")
     emit(f, ls)
